@@ -101,7 +101,23 @@ static Bd boundary_of(int j) {
   }
   return b;
 }
+#ifdef VP_IDS
+// identifiers increasing along the filtration but with solver-chosen gaps (0..2): positions and identifiers differ; a cell inserted after a removal may reuse an identifier
+static int cellId[M];
+static void insert_cell(Mat& mat, int j) {
+  cellId[j] = (j ? cellId[j - 1] : -1) + 1 + vp_fork_int(vp_int("idgap", 0, 2)); Bd b = boundary_of(j), bi;
+  for (auto& e : b) {
+#if VP_Z2
+    bi.push_back((unsigned)cellId[e]);
+#else
+    bi.push_back({(unsigned)cellId[e.first], e.second});
+#endif
+  }
+  mat.insert_boundary((unsigned)cellId[j], bi, pc(cell[j]) - 1);
+}
+#else
 static void insert_cell(Mat& mat, int j) { mat.insert_boundary(boundary_of(j), pc(cell[j]) - 1); }
+#endif
 #if VP_BARCODE
 // barcode (positions) == oracle pairs
 static void check_barcode(Mat& mat, int n, const char* lbl_pair, const char* lbl_count) {
